@@ -120,6 +120,8 @@ def check_one(chk, rep, repo, cls, eff):
     rep.fn("NI-carried-summary", fn, f"{n_ev} events of the per-sample loop read no value of a previous iteration",
            True, line=per.line)
     # scratch arrays
+    from ..common import require_scalar_fragment
+    require_scalar_fragment(w, w.entry.qual)
     scans = find_knn_scans(w)
     scratch = {}
     for ev in w.events:
